@@ -89,8 +89,25 @@ def attr_case(draw):
     func = draw(st.sampled_from(["polynomial_from_attributes", "from_attributes", "clean_attributes",
                                  "remove_redundant_coefficients", "remove_redundant_names"]))
     tri = st.sampled_from([None, True, False])
+    variant = None
+    if fault is None and func in ("polynomial_from_attributes", "from_attributes"):
+        pick = draw(st.integers(0, 5))
+        if pick == 0 and N >= 2:
+            # one all-zero coefficient that is wider than the others (in shape and/or type): the result's shape
+            # and dtype are those of all coefficients together, whether or not that term is dropped
+            variant = {"zero_wide": draw(st.integers(0, N - 1)), "wide_shape": draw(st.booleans()) and shape == (),
+                       "wide_kind": kind == "i" and draw(st.booleans())}
+            if not variant["wide_shape"] and not variant["wide_kind"]:
+                variant["wide_kind" if kind == "i" else "wide_shape"] = True
+            if variant["wide_shape"] and shape != ():
+                variant = None
+        elif pick == 1 and kind == "f":
+            # a requested integer dtype: terms whose coefficients become zero by the cast are all-zero terms
+            variant = {"dtype": "int64"}
+        elif pick == 2:
+            variant = {"names": "empty"}  # names=() for D >= 1 columns: not a valid triple
     return {"attrs": {"rows": rows, "coefs": coefs, "names": names, "shape": list(shape), "kind": kind},
-            "fault": fault, "func": func,
+            "fault": fault, "func": func, "variant": variant,
             "arg_rc": draw(tri), "arg_rn": draw(tri), "opt_rc": draw(st.booleans()), "opt_rn": draw(st.booleans())}
 
 
@@ -238,6 +255,9 @@ def expected_attributes(attrs, rc, rn):
     if len(names) != len(rows[0]):
         return ("error", "names-length")
     pairs = list(zip(rows, coefs))
+    if len({tuple(r) for r in rows}) != len(rows):
+        # a repeated exponent row is an invalid triple whatever its coefficients are (also all-zero ones)
+        return ("error", "duplicate-exponents")
     if not rc:
         kept = [(r, c) for r, c in pairs if any(x != 0 and x != [0, 0] for x in c) or not any(r)]
         if not kept:
@@ -291,6 +311,27 @@ def check_attrs(case, ctx):
     dtype = KIND_DTYPE[attrs["kind"]]
     carr = [numpy.array([coef_value(attrs["kind"], c) for c in cs], dtype=dtype).reshape(shape)
             for cs in attrs["coefs"]]
+    variant = case.get("variant") or {}
+    extra_kw = {}
+    names_arg = tuple(attrs["names"])
+    if "zero_wide" in variant:
+        zi = variant["zero_wide"]
+        wshape = (2,) if variant["wide_shape"] else shape
+        wkind = "f" if variant["wide_kind"] else attrs["kind"]
+        carr[zi] = numpy.zeros(wshape, dtype=KIND_DTYPE[wkind])
+        # what the triple denotes: every coefficient broadcast to the common shape, in the common type
+        mult = gen.size_of(wshape) // max(gen.size_of(shape), 1)
+        scale = 4 if (wkind == "f" and attrs["kind"] == "i") else 1  # (float coefficients are stored as quarters)
+        attrs["coefs"] = [[0] * gen.size_of(wshape) if i == zi else [v * scale for v in cs] * mult
+                          for i, cs in enumerate(attrs["coefs"])]
+        attrs["shape"], attrs["kind"] = list(wshape), wkind
+        shape, dtype = wshape, KIND_DTYPE[wkind]
+    if variant.get("dtype"):
+        extra_kw["dtype"] = variant["dtype"]
+        attrs["coefs"] = [[int(v / 4.0) for v in cs] for cs in attrs["coefs"]]  # numpy's float -> int cast truncates
+        attrs["kind"], dtype = "i", variant["dtype"]
+    if variant.get("names") == "empty":
+        names_arg = ()
     opts = {"retain_coefficients": case["opt_rc"], "retain_names": case["opt_rn"]}
     rc = case["arg_rc"] if case["arg_rc"] is not None else case["opt_rc"]
     rn = case["arg_rn"] if case["arg_rn"] is not None else case["opt_rn"]
@@ -336,6 +377,8 @@ def check_attrs(case, ctx):
         return fails
 
     expect = expected_attributes(attrs, rc, rn)
+    if variant.get("names") == "empty":
+        expect = ("error", "names-length")
     with numpoly.global_options(**opts):
         try:
             if func == "clean_attributes":
@@ -350,12 +393,13 @@ def check_attrs(case, ctx):
                                                          retain_coefficients=True, retain_names=True)
                 p = numpoly.clean_attributes(raw, retain_coefficients=case["arg_rc"], retain_names=case["arg_rn"])
             elif func == "from_attributes":
-                p = numpoly.ndpoly.from_attributes(attrs["rows"], carr, tuple(attrs["names"]),
-                                                   retain_coefficients=case["arg_rc"], retain_names=case["arg_rn"])
+                p = numpoly.ndpoly.from_attributes(attrs["rows"], carr, names_arg,
+                                                   retain_coefficients=case["arg_rc"], retain_names=case["arg_rn"],
+                                                   **extra_kw)
             else:
-                p = numpoly.polynomial_from_attributes(attrs["rows"], carr, tuple(attrs["names"]),
+                p = numpoly.polynomial_from_attributes(attrs["rows"], carr, names_arg,
                                                        retain_coefficients=case["arg_rc"],
-                                                       retain_names=case["arg_rn"])
+                                                       retain_names=case["arg_rn"], **extra_kw)
         except PolynomialConstructionError as err:
             if expect[0] == "error":
                 ctx.label("attributes:rejected:" + expect[1])
@@ -383,6 +427,8 @@ def check_attrs(case, ctx):
         return fail("value", "denoted polynomial changed: " + d)
     ctx.label("attributes:" + func)
     ctx.label("attributes:" + flagcls)
+    if variant:
+        ctx.label("attributes:variant:" + ",".join(sorted(k for k, v in variant.items() if v not in (False, None))))
     removed = len(pairs) < len(attrs["rows"]) or len(names) < len(attrs["names"])
     if removed:
         ctx.label("attributes:removed-term-or-name")
